@@ -1,11 +1,222 @@
-import NA.Model.Linux
-import NA.Spec.Linux
+import NA.Proofs.C05Final
+import NA.Proofs.C05Restore
+/-!
+# C05 — Linux approve converges for static routes and iptables
+
+Property theorems only.  Model of the code: `NA/Model/Linux.lean` (`diffRoutes`, `parsePairs`,
+`normalize`, `diffIPTables`, `getIPTablesConfig`); device semantics and `iptables-save` spelling:
+`NA/Spec/Linux.lean`.  All statements are over arbitrary route lists, rule sets and grammar rules.
+
+False of the unchanged code, with witness and complement:
+* `linux_routes_converge` — false when the target names one route twice
+  (`linux_routes_converge_counterexample`, F-C05d); proved otherwise: `linux_routes_converge_partial`.
+* `iptables_replace_converges` — false when the device has a table the target lacks
+  (`iptables_replace_converges_counterexample`, F-C05t); proved otherwise: `…_partial`.
+* `kernel_roundtrip` — false when an option key repeats (`kernel_roundtrip_counterexample`, F-C05m)
+  and for an un-negated `--syn` (`kernel_roundtrip_syn_counterexample`, F-C05s); proved for the
+  grammar under `RuleOK`: `kernel_roundtrip_partial`.
+* `normalize_idempotent` — false in general (`normalize_idempotent_counterexample`); proved on
+  stable maps: `normalize_idempotent_partial`.
+* `normalize_sound` — false for a repeated option key (`normalize_sound_counterexample`); what equal
+  normal forms do imply: `normalize_sound_partial`.
+-/
 namespace NA.C05
-open NA.Linux
+open NA.Linux NA.Linux.Spec
 
-theorem placeholder_a : normalize [] = [] := by decide
-theorem placeholder_b : diffIPTables [] [] = .same := by decide
-theorem placeholder_c : diffRoutes [] [] = [] := by decide
+/-! ## routes -/
 
-def obligations : List Lean.Name := [``placeholder_a, ``placeholder_b, ``placeholder_c]
+/-- The script of `diffRoutes`, executed line by line (a joined `del \N add` is one step) on the
+strict kernel table that holds the device's routes, succeeds and ends in exactly the target's
+routes — for a device table without duplicates (it is a set) and a target that names no route twice. -/
+theorem linux_routes_converge_partial (a b : List Route) (ha : (keys a).Nodup) (hb : (keys b).Nodup) :
+    ∃ t, execScript (keys a) ((diffRoutes a b).map cmdsOf) = some t ∧ t.Nodup ∧ ∀ k, k ∈ t ↔ k ∈ keys b := by
+  obtain ⟨tr, h1, h2, h3, _⟩ := core_ok a b (sortRoutes b) ha (sortRoutes_nodup b hb) (sortRoutes_mem b)
+  exact ⟨_, execScript_of_trace _ _ _ h1, h2, h3⟩
+
+/-- Without the hypothesis on the target the statement is false: the same route twice in the
+target makes the script add a route that exists. -/
+theorem linux_routes_converge_counterexample :
+    ∃ a b : List Route, (keys a).Nodup ∧ execScript (keys a) ((diffRoutes a b).map cmdsOf) = none :=
+  ⟨[⟨s "10.1.1.0", 24, s "10.9.1.1", s "ip route add 10.1.1.0/24 via 10.9.1.1"⟩],
+   [⟨s "10.1.1.0", 24, s "10.9.1.1", s "ip route add 10.1.1.0/24 via 10.9.1.1"⟩,
+    ⟨s "10.1.1.0", 24, s "10.9.1.1", s "ip route add 10.1.1.0/24 via 10.9.1.1"⟩], by decide⟩
+
+/-- If device and target have at most one next hop per destination, so has every state between
+two script lines. -/
+theorem linux_routes_one_hop_per_dst (a b : List Route) (ha : (keys a).Nodup) (hb : (keys b).Nodup)
+    (h1 : OneHop a) (h2 : OneHop b) :
+    ∃ tr, execTrace (keys a) ((diffRoutes a b).map cmdsOf) = some tr ∧ ∀ t ∈ tr, oneHopPerDst t := by
+  obtain ⟨tr, h, _, _, hst⟩ := core_ok a b (sortRoutes b) ha (sortRoutes_nodup b hb) (sortRoutes_mem b)
+  refine ⟨tr, h, ?_⟩
+  intro t ht
+  obtain ⟨am, P, st⟩ := hst t ht
+  exact st.oneHop h1 h2
+
+/-- Every destination that has a route before and after has one after every script line (joined
+lines are atomic).  Used by C14. -/
+theorem routes_covered_linux (a b : List Route) (ha : (keys a).Nodup) (hb : (keys b).Nodup) :
+    ∃ tr, execTrace (keys a) ((diffRoutes a b).map cmdsOf) = some tr ∧
+      ∀ t ∈ tr, ∀ d, covered (keys a) d = true → covered (keys b) d = true → covered t d = true := by
+  obtain ⟨tr, h, _, _, hst⟩ := core_ok a b (sortRoutes b) ha (sortRoutes_nodup b hb) (sortRoutes_mem b)
+  refine ⟨tr, h, ?_⟩
+  intro t ht d hda hdb
+  obtain ⟨am, P, st⟩ := hst t ht
+  exact st.covers d hda hdb
+
+/-- With one next hop per destination on both sides the script also runs on the kernel that refuses
+a second route to a destination (`RTNETLINK answers: File exists`), and converges. -/
+theorem linux_routes_kernel_strict (a b : List Route) (ha : (keys a).Nodup) (hb : (keys b).Nodup)
+    (h1 : OneHop a) (h2 : OneHop b) :
+    ∃ t, execScriptK (keys a) ((diffRoutes a b).map cmdsOf) = some t ∧ ∀ k, k ∈ t ↔ k ∈ keys b := by
+  obtain ⟨tr, h, _, h3, hst⟩ := core_ok a b (sortRoutes b) ha (sortRoutes_nodup b hb) (sortRoutes_mem b)
+  refine ⟨_, scriptK_of_trace _ _ tr h ?_, h3⟩
+  intro t ht
+  obtain ⟨am, P, st⟩ := hst t ht
+  exact st.oneHop h1 h2
+
+/-! ## iptables: compare -/
+
+/-- `diffIPTables` reports nothing iff both rule sets have the same tables, in each the same
+chains, for each chain the same policy and, rule by rule in order, the same option map. -/
+theorem iptables_diff_iff (a b : Tables) : diffIPTables a b = .same ↔ TablesEq a b :=
+  diffIPTables_same a b
+
+/-! ## iptables: loading the printed file -/
+
+/-- Whatever the device holds, loading the file of `getIPTablesConfig` gives every table of the
+target exactly the target's chains (sorted by name), policies and rule lines in order, and leaves
+every other table as it was. -/
+theorem iptables_replace_converges_partial (tb : Tables) (st : KState)
+    (hc : ∀ t cm, getA t tb = some cm → (keysA cm).Nodup) :
+    ∃ st', restore st ((getIPTablesConfig tb).map toRLn) = some st' ∧
+      (∀ t cm, getA t tb = some cm → st'.get t = some (expTable t cm)) ∧
+      (∀ t, getA t tb = none → st'.get t = st.get t) :=
+  restore_target tb st hc
+
+/-- Hence "the device then holds exactly the target" is false as soon as the device has a table
+that the target does not name: it survives. -/
+theorem iptables_replace_converges_counterexample :
+    ∃ (tb : Tables) (st st' : KState), restore st ((getIPTablesConfig tb).map toRLn) = some st' ∧
+      getA (s "mangle") tb = none ∧ (st'.get (s "mangle")).isSome = true :=
+  ⟨[(s "filter", [(s "INPUT", { policy := s "DROP" })])],
+   [⟨s "mangle", [⟨s "PREROUTING", s "ACCEPT", []⟩]⟩], _, rfl, by decide, by decide⟩
+
+/-! ## iptables: normalisation -/
+
+/-- On a stable map (every value a fixed point of the per-key rewriting, no convertible
+`--set-xmark`, surviving `-m` differs from the protocol) normalisation changes nothing; in
+particular `normalize (normalize p) ≈ normalize p` whenever `normalize p` is stable. -/
+theorem normalize_idempotent_partial (p : Pairs) (h : Stable (normalize p)) :
+    PairsEq (normalize (normalize p)) (normalize p) := normalize_of_stable _ h
+
+/-- In general normalisation is not idempotent: `-p VRRP -m 112` keeps `-m` in the first pass
+(`112` ≠ `VRRP`) and drops it in the second (`-p` is `112` by then). -/
+theorem normalize_idempotent_counterexample :
+    ∃ p : Pairs, normalize (normalize p) ≠ normalize p ∧ ¬ PairsEq (normalize (normalize p)) (normalize p) := by
+  refine ⟨[(s "-p", s "VRRP"), (s "-m", s "112")], by decide, ?_⟩
+  intro h
+  exact absurd (h (s "-m")) (by decide)
+
+/-- What equal normal forms imply for two option maps: on every key other than `-m`, `--set-mark`
+and `--set-xmark`, the values agree up to the per-key rewriting. -/
+theorem normalize_sound_partial (p q : Pairs) (h : PairsEq (normalize p) (normalize q)) (k : Str)
+    (hk : k ≠ kM ∧ k ≠ kMark ∧ k ≠ kXmark) :
+    (getA k p).map (normVal k) = (getA k q).map (normVal k) := by
+  have := h k
+  rw [getA_normalize, getA_normalize] at this
+  obtain ⟨h1, h2, h3⟩ := hk
+  cases hp : xConv p <;> cases hq : xConv q <;> simpa [hp, hq, h1, h2, h3] using this
+
+/-- Equal option maps do not mean equal rules: the map keeps only the last value of a repeated key. -/
+theorem normalize_sound_counterexample :
+    ∃ w1 w2 : List Str, w1.length ≠ w2.length ∧ parsePairs w1 = parsePairs w2 :=
+  ⟨[s "-m", s "state", s "-m", s "tcp"], [s "-m", s "tcp"], by decide, by decide⟩
+
+/-! ## iptables: the round trip target → device → iptables-save → compare -/
+
+theorem kernelOpts_ok (cfg : KCfg) (r : ARule) (hwf : ∀ a ∈ r, a.wf = true) : ∀ o ∈ kernelOpts cfg r, OptOK o := by
+  intro o ho
+  rcases (mem_kernelOpts cfg r o).mp ho with ⟨a, ha, _, e⟩ | ⟨p, hp, _, e⟩
+  · rw [e]; exact kernel_ok cfg a (hwf a ha)
+  · obtain ⟨P, u, num, hP, hk⟩ := protoOf_mem cfg r p hp
+    rw [e]
+    exact optOK_mk _ _ _ (by decide) (hk ▸ (proto_isArg cfg .no P u num (hwf _ hP)).2)
+
+/-- For every rule of the grammar whose option keys are distinct in both spellings (`RuleOK`), what
+`iptables-save` prints for the rule and what the target says parse and normalise to the same option
+map — for both ways the device may print protocols 112 and 58. -/
+theorem kernel_roundtrip_partial (cfg : KCfg) (r : ARule) (H : RuleOK cfg r) :
+    ∃ pk pu, parsePairs (kernelWords cfg r) = some pk ∧ parsePairs (userWords r) = some pu ∧
+      PairsEq (normalize pk) (normalize pu) := by
+  refine ⟨_, _, parsePairs_words _ (kernelOpts_ok cfg r H.wf), parsePairs_words _ ?_, rule_roundtrip cfg r H⟩
+  intro o ho
+  obtain ⟨a, ha, e⟩ := List.mem_map.mp ho
+  rw [← e]; exact user_ok a (H.wf a ha)
+
+/-- … so the second compare finds no difference in that rule. -/
+theorem kernel_roundtrip_no_diff (cfg : KCfg) (r : ARule) (H : RuleOK cfg r) (t c : Str) (i : Nat) :
+    ∃ pk pu, parsePairs (kernelWords cfg r) = some pk ∧ parsePairs (userWords r) = some pu ∧
+      diffRule t c i (normalize pk) (normalize pu) = .same := by
+  obtain ⟨pk, pu, h1, h2, h3⟩ := kernel_roundtrip_partial cfg r H
+  exact ⟨pk, pu, h1, h2, (diffRule_same t c i _ _).mpr h3⟩
+
+def exStateFirst : ARule :=
+  [.mExplicit (s "state"), .state [.new], .proto .no .tcp false false, .dport (.one (s "22")) 0 false, .jump (s "ACCEPT")]
+
+/-- Without distinct keys the round trip fails: `-m state --state NEW -p tcp --dport 22 -j ACCEPT` is
+printed as `-p tcp -m state --state NEW -m tcp --dport 22 -j ACCEPT`; the map of the device keeps the
+last `-m` (`tcp`, dropped as protocol match), the target's map keeps `-m state`. -/
+theorem kernel_roundtrip_counterexample :
+    ∃ (cfg : KCfg) (r : ARule) (pk pu : Pairs), (∀ a ∈ r, a.wf = true) ∧
+      parsePairs (kernelWords cfg r) = some pk ∧ parsePairs (userWords r) = some pu ∧
+      getA (s "-m") (normalize pk) ≠ getA (s "-m") (normalize pu) :=
+  ⟨{}, exStateFirst, _, _, by decide, rfl, rfl, by decide⟩
+
+/-- An un-negated `--syn` (outside the grammar: `AOpt.wf` demands the negated form) does not
+survive the round trip either: the kernel prints `--tcp-flags FIN,SYN,RST,ACK SYN`. -/
+theorem kernel_roundtrip_syn_counterexample :
+    ∃ (cfg : KCfg) (r : ARule) (pk pu : Pairs),
+      parsePairs (kernelWords cfg r) = some pk ∧ parsePairs (userWords r) = some pu ∧
+      getA (s "--syn") (normalize pk) ≠ getA (s "--syn") (normalize pu) :=
+  ⟨{}, [.jump (s "ACCEPT"), .proto .no .tcp false false, .syn false false], _, _, rfl, rfl, by decide⟩
+
+/-! ## non-vacuity: the hypotheses are satisfiable on non-trivial values -/
+
+def exA : List Route :=
+  [⟨s "10.20.0.0", 16, s "10.1.2.3", s "ip route add 10.20.0.0/16 via 10.1.2.3"⟩,
+   ⟨s "10.30.0.0", 16, s "10.1.2.3", s "ip route add 10.30.0.0/16 via 10.1.2.3"⟩,
+   ⟨s "0.0.0.0", 0, s "10.1.2.5", s "ip route add default via 10.1.2.5"⟩]
+def exB : List Route :=
+  [⟨s "10.10.0.0", 16, s "10.1.2.3", s "ip route add 10.10.0.0/16 via 10.1.2.3"⟩,
+   ⟨s "10.20.0.0", 16, s "10.1.2.3", s "ip route add 10.20.0.0/16 via 10.1.2.3"⟩,
+   ⟨s "0.0.0.0", 0, s "10.1.2.6", s "ip route add 0.0.0.0/0 via 10.1.2.6"⟩]
+example : (keys exA).Nodup ∧ (keys exB).Nodup := by decide
+example : (diffRoutes exA exB).length = 3 := by decide
+
+def exRule : ARule :=
+  [.jump (s "MARK"), .setMark (s "f") true (s "0X0F/0XFFFFFFFF"), .proto .before .tcp true false,
+   .src .after (s "10.1.1.1") (s "32") false]
+def exRule2 : ARule :=
+  [.proto .no .udp true false, .sport (.range (s "0") (s "1023")) 2 true, .dport (.range (s "1024") (s "65535")) 0 true,
+   .mExplicit (s "UDP"), .goto (s "c2")]
+def exRule3 : ARule :=
+  [.jump (s "ACCEPT"), .mExplicit (s "state"), .state [.related, .established]]
+
+example : RuleOK {} exRule := by decide
+example : RuleOK { protoNames := false } exRule2 := by decide
+example : RuleOK {} exRule3 := by decide
+example : Stable (normalize [(s "-s", s "10.1.1.1/32"), (s "-p", s "TCP"), (s "-m", s "tcp"), (s "--dport", s "0:1023")]) := by
+  decide
+
+def obligations : List Lean.Name := [
+  ``linux_routes_converge_partial, ``linux_routes_converge_counterexample,
+  ``linux_routes_one_hop_per_dst, ``routes_covered_linux, ``linux_routes_kernel_strict,
+  ``iptables_diff_iff,
+  ``iptables_replace_converges_partial, ``iptables_replace_converges_counterexample,
+  ``normalize_idempotent_partial, ``normalize_idempotent_counterexample,
+  ``normalize_sound_partial, ``normalize_sound_counterexample,
+  ``kernel_roundtrip_partial, ``kernel_roundtrip_no_diff,
+  ``kernel_roundtrip_counterexample, ``kernel_roundtrip_syn_counterexample,
+  ``opt_roundtrip, ``parsePairs_words, ``getA_normalize]
+
 end NA.C05
